@@ -135,6 +135,9 @@ type World struct {
 
 	uidSeq int
 	everNC, everNode map[string]bool // names ever delivered to the informers (to deliver their deletion later)
+	// PodsFirst: SyncCluster delivers the Pod events first (their nodes are still unknown: the reconciles fail and are
+	// not retried before SyncCluster returns) — the event order after a controller restart
+	PodsFirst bool
 }
 
 type Recorder struct {
@@ -281,6 +284,16 @@ func (w *World) SyncCluster() {
 	ctx := w.Ctx
 	w.Client.Quiet++
 	defer func() { w.Client.Quiet-- }()
+	if w.PodsFirst {
+		// start-up order of a restarted controller: the Pod events are reconciled BEFORE the cache knows their nodes (each
+		// fails with NotFound and is requeued with back-off), then the rest arrives; the retries have not fired yet when
+		// the caller goes on (Cluster.Synced looks at Nodes and NodeClaims only)
+		pods := &corev1.PodList{}
+		must(w.Raw.List(ctx, pods))
+		for i := range pods.Items {
+			_, _ = w.podInf.Reconcile(ctx, req(&pods.Items[i]))
+		}
+	}
 	nps := &v1.NodePoolList{}
 	must(w.Raw.List(ctx, nps))
 	for i := range nps.Items {
@@ -338,6 +351,9 @@ func (w *World) SyncCluster() {
 	pods := &corev1.PodList{}
 	must(w.Raw.List(ctx, pods))
 	for i := range pods.Items {
+		if w.PodsFirst {
+			break
+		}
 		must2(w.podInf.Reconcile(ctx, req(&pods.Items[i])))
 	}
 	dss := &appsv1.DaemonSetList{}
